@@ -318,6 +318,33 @@ theorem aligned_step {s s' : State} {op : Op} (hal : Aligned s) (h : step s op =
               refine aligned_setSlot hal ?_
               split <;> exact hca
     · cases h
+  | lmove d src =>
+    unfold step at h; simp only at h
+    split at h
+    · cases h
+    · rename_i Ls hLs
+      have hL := lay_aligned hal hLs
+      split at h
+      · cases h
+      · split at h
+        · injection h with h; subst h; exact hal
+        · split at h
+          · cases h
+          · split at h
+            · cases h
+            · rename_i p1 hr
+              injection h with h; subst h
+              have h1 := aligned_setLay (s := s) (p' := p1) (a := d) (x := some Ls) hal hL
+              refine ⟨h1.1, ?_⟩
+              intro y hy
+              unfold State.setLay at hy
+              simp only at hy
+              rcases List.mem_or_eq_of_mem_set hy with hy | hy
+              · exact h1.2 y hy
+              · subst hy; exact AlignedL.nil
+  | lvec k =>
+    unfold step at h
+    injection h with h; subst h; exact hal
   | ldrop l =>
     unfold step at h; simp only at h
     split at h
